@@ -153,6 +153,43 @@ func VxC03() {
 			vxAssert(!panicked && gerr == nil && got == v-w, "expr! then expr? must yield the values when the errors are nil")
 			vxCalls(1, 2)
 		}
+	case 13:
+		{
+			var got int
+			perr, panicked := vxPanics(func() { got = BangCmd(fail) })
+			if fail {
+				vxAssert(panicked && perr != nil && errors.Is(perr, errBoom), "f! args (command style) must panic with the callee's error")
+			} else {
+				vxAssert(!panicked && got == 7, "f! args (command style) must continue when the error is nil")
+			}
+			vxCalls(1)
+		}
+		calls = nil
+		{
+			var gerr error
+			_, panicked := vxPanics(func() { gerr = QuestCmd(fail) })
+			vxAssert(!panicked, "f? args (command style) must not panic")
+			if fail {
+				vxAssert(gerr != nil && errors.Is(gerr, errBoom), "f? args (command style) must return the callee's error")
+				vxCalls(1)
+			} else {
+				vxAssert(gerr == nil, "f? args (command style) must continue when the error is nil")
+				vxCalls(1, 9)
+			}
+		}
+		calls = nil
+		{
+			var gv int
+			var gs string
+			var gerr error
+			_, panicked := vxPanics(func() { gv, gs, gerr = QuestCmdTwo(v, fail) })
+			vxAssert(!panicked, "f? args (command style) must not panic")
+			if fail {
+				vxAssert(gv == 0 && gs == "" && gerr != nil && errors.Is(gerr, errBoom), "f? args must return zero values and the callee's error")
+			} else {
+				vxAssert(gv == v && gs == "ok" && gerr == nil, "f? args must continue when the error is nil")
+			}
+		}
 	case 10:
 		got := DefaultArg(v, d, fail)
 		if fail {
